@@ -11,6 +11,9 @@
      Structural(k, at, n)  truncate / delete / duplicate / zero / 0xFF / bit-flip n bytes at at/64 of the file
      Keyword(a, b, occ)    the occ-th structural keyword a is replaced by b
      Random(n, len, hdr)   len pseudo-random bytes (seeded by n), optionally behind a %PDF header
+     Tail(s, v)            the last bytes of unfiltered content stream s overwritten by the cut-short token v
+     Body(o, v)            the body of non-stream object o replaced: a reference to itself / to the next object,
+                           nesting 3000 deep, a scalar, a dictionary whose /Kids is an indirect reference
 
    What the reader owes every case, under every strictness preset (Robust): an answer that is a VALUE or an ERROR -
    never a panic, an abort, a stack overflow - within a processor-time budget and a memory budget that do not depend
@@ -33,6 +36,10 @@ Lens == {1, 7, 64}
 Keywords == << <<"endobj", "endobx">>, <<"obj", "obk">>, <<"endstream", "endstrean">>, <<"stream", "strean">>, <<"xref", "xrez">>, <<"trailer", "trailex">>,
               <<"startxref", "startxrez">>, <<"%%EOF", "%%EOG">>, <<">>", "> ">>, <<"<<", "< ">>, <<" R", " Q">>, <<"[", " ">>, <<"]", " ">>, <<"(", " ">>, <<")", " ">>,
               <<"/Type", "/Typo">>, <<"/Kids", "/Kidz">>, <<"/Pages", "/Pagez">>, <<"/Root", "/Roox">>, <<"/Length", "/Lengtx">>, <<"/Filter", "/Filtex">> >>
+\* hostile endings of a content stream: tokens cut short at the last byte
+ContentTails == << "/Span#4", "/A#", "/A#4G", "(abc", "(a\\", "(\\1", "<4", "<", "[1 2", " BT", " /", " 1.", " -", "<<", "<</A", " ID ", "BI /W 1 ID x", " 0 0 m", "%c", "'", "\"" >>
+\* what may stand where an object's body should be: references that lead nowhere or in circles, nesting beyond any stack, scalars
+BodyVals == << "self", "next", "deep", "deepdict", "null", "[ ]", "<< >>", "42", "(s)", "/N", "true", "99 0 R", "[ 1 0 R 1 0 R ]", "<< /Kids 2 0 R >>" >>
 Presets == {"strict", "default", "tolerant", "lenient", "skip_errors"}
 
 \* a fault is well-formed for a base b = [name, nslots, classes (seq of class names, one per slot)]
@@ -41,6 +48,8 @@ WellFormed(b, f) ==
     [] f.k \in StructKinds -> f.at \in 0..63 /\ (f.k = "truncate" \/ f.len \in Lens)
     [] f.k = "keyword" -> \E i \in 1..Len(Keywords) : Keywords[i] = <<f.from, f.to>>
     [] f.k = "random" -> f.len \in 0..4096
+    [] f.k = "tail" -> b.ntails > 0 /\ f.stream \in 0..(b.ntails - 1) /\ InSeq(f.val, ContentTails)
+    [] f.k = "body" -> b.nbodies > 0 /\ f.obj \in 0..(b.nbodies - 1) /\ InSeq(f.val, BodyVals)
     [] OTHER -> FALSE
 
 \* the reader's obligation
